@@ -20,6 +20,9 @@ import KafkaVerif.Model.Resolve
 import KafkaVerif.Model.GoVal
 import KafkaVerif.Gen.Schemas
 import KafkaVerif.Gen.DecoderCfg
+import KafkaVerif.Gen.RecordCfg
+import KafkaVerif.Model.CodecRecords
+import KafkaVerif.Spec.Crc
 import KafkaVerif.Spec.KafkaWire
 import KafkaVerif.Spec.KafkaSchemas
 import KafkaVerif.Spec.KafkaParse
@@ -31,6 +34,11 @@ def answer (model : String) (holds : Bool) : String :=
   s!"model={model} holds={if holds then 1 else 0}"
 
 def cfg : Cfg := Gen.decoderCfg
+
+/-- the frame decoder with the detailed record-set reader (C20 outcome classes); compressed batches are not
+generated: decompression fails -/
+def cfgR : Cfg :=
+  withRecords Gen.decoderCfg Gen.recordCfg (Crc.crc32 Crc.polyIEEE) (Crc.crc32 Crc.polyCastagnoli) (fun _ _ => none)
 
 mutual
 /-- `WriteTo` of a RecordSet without records fails with ErrNoRecord: the frame cannot be produced -/
@@ -404,10 +412,10 @@ def stepMain (line : String) : String :=
             | some bs =>
               let out0 : String :=
                 if c.m.isRequest then showRes (fun _ => "ok") (readRequest c bs)
-                else showRes (fun _ => "ok") (readResponse cfg c.r.flexible c.r.ty bs)
+                else showRes (fun _ => "ok") (readResponse cfgR c.r.flexible c.r.ty bs)
               let out1 := if out0 == "balloon" then "oom" else out0
-              -- the inside of a RecordSet payload is opaque to this model (C05): the real decoder may reject it
-              let out := if out1 == "ok" && impl == "err" && hasRecords c.r.ty then "err" else out1
+              -- record sets are read by the detailed reader of Model/RecordScan.lean (`cfgR`): exact outcome class
+              let out := out1
               -- monitor (C20): an error or a message, nothing else
               answer out (impl == "ok" || impl == "err")
           | _ => "bad-args"
@@ -455,17 +463,16 @@ def stepPipe (pi ver hexes impl : String) : String :=
   | some c, [h1, h2] =>
     match ofHex h1, ofHex h2 with
     | some b1, some b2 =>
-      let r1 := readResponse cfg c.r.flexible c.r.ty (b1 ++ b2)
+      let r1 := readResponse cfgR c.r.flexible c.r.ty (b1 ++ b2)
       let model : String := match r1 with
         | .ok _ d =>
-          (match readResponse cfg c.r.flexible c.r.ty d.inp with
+          (match readResponse cfgR c.r.flexible c.r.ty d.inp with
            | .ok (corr, _) _ =>
              let want : Int := match Spec.pInt 4 (b2.drop 4) with | some (v, _) => v | none => -1
              if corr == want then "ok,ok" else "ok,err"
            | .panic => "ok,panic" | _ => "ok,err")
         | .panic => "panic,-" | .balloon => "oom,-" | .error => "err,-"
-      -- record-set insides are opaque to the model: the real decoder may reject the first frame
-      let model' := if model == "ok,ok" && impl == "err,-" && hasRecords c.r.ty then "err,-" else model
+      let model' := model
       answer model' (impl == "err,-" || impl == "ok,ok")
     | _, _ => "bad-hex"
   | _, _ => "bad-case"
